@@ -416,6 +416,252 @@ def forced_hi_arity_recursion_spec(rng, kind):
                 features=["forced_hi_arity_recursion", "forced_hi_arity_recursion_kind%d" % kind] + (["forced_nonlinear_hi_arity"] if kind == 2 else []),
                 recursive=True)
 
+# ----------------------------------------------------------------------------
+# stream "paths": grammars with several DISTINCT factors that have EQUAL weight tables, obtained through every
+# constructor / loader / copy path of the library; gradients are read per factor from the objects that path returned
+
+PATHS = ["json", "copy", "from_hrg", "factorize", "lists", "json_copy", "shared_by_caller", "copy_factorize", "conjoin"]
+PATH_STEPS = {"json": ["json"], "copy": ["copy"], "factorize": ["factorize"], "json_copy": ["json", "copy"],
+              "copy_factorize": ["copy", "copy", "factorize"], "direct": []}
+
+def table_shape(spec, el):
+    return tuple(spec["nlabels"][nl] for nl in spec["elabels"][el]["type"])
+
+def equalize_tables(spec, rng, p=0.8):
+    """terminals whose tables have the same shape receive literally equal tables (copies of one of them); returns (spec, #copies)"""
+    import copy
+    groups = {}
+    for el in sorted(spec["weights"]): groups.setdefault(table_shape(spec, el), []).append(el)
+    s = dict(spec); s["weights"] = dict(spec["weights"]); n = 0
+    for shape, els in sorted(groups.items()):
+        if len(els) < 2: continue
+        src = rng.choice(els)
+        for el in els:
+            if el != src and rng.random() < p:
+                s["weights"][el] = copy.deepcopy(spec["weights"][src]); n += 1
+    if n: s["features"] = sorted(set(spec["features"]) | {"equal_tables"})
+    return s, n
+
+def equal_groups(spec):
+    """groups (>= 2) of distinct factors whose tables are equal (same shape, same numbers)"""
+    groups = {}
+    for el in sorted(spec["weights"]):
+        groups.setdefault((table_shape(spec, el), repr(spec["weights"][el])), []).append(el)
+    return [els for els in groups.values() if len(els) >= 2]
+
+def equal_tables_spec(rng, kind):
+    """forced shapes in which factors with EQUAL tables sit in DIFFERENT positions (so that their true gradients differ):
+      0: S -> a(x) X(x);  X(x) -> t(x,y) X(y) | b(x)          a = b   (recursive, domain of size 1 or 2)
+      1: S -> a(x) t(x,y) b(y) [c(y)]                          a = b = c  (domain of size 1, 2 or 3)
+      2: S -> X c;  X -> X X a | b                             a = b = c  (nullary factors, recursive)
+      3: S -> f(x) t(x,y) u(y,z) g(z)                          t = u [f = g]
+      4: S -> X(x,y) m(x,y);  X(x,y) -> t(x,y) | u(y,x)        t = u = m  (arity-2 nonterminal)"""
+    import copy
+    W = [Fraction(1, 4), Fraction(1, 2), Fraction(1), Fraction(2), Fraction(3)]
+    T = lambda ar: dict(term=True, type=[0] * ar)
+    NTn = lambda ar: dict(term=False, type=[0] * ar)
+    def distinct_vec(d):
+        while True:
+            v = gen.nested([d], lambda: rng.choice(W))
+            if d == 1 or len(set(v)) > 1: return v
+    d = 2
+    if kind == 0:
+        d = rng.choice([1, 2, 2]); a = distinct_vec(d)
+        els = [NTn(0), NTn(1), T(1), T(1), T(2)]
+        rules = [dict(lhs=0, nodes=[0], edges=[(2, [0]), (1, [0])], ext=[]),
+                 dict(lhs=1, nodes=[0, 0], edges=[(4, [0, 1]), (1, [1])], ext=[0]),
+                 dict(lhs=1, nodes=[0], edges=[(3, [0])], ext=[0])]
+        t = asym_matrix(rng, W[:3]) if d == 2 else [[rng.choice(W[:3])]]
+        weights = {2: a, 3: copy.deepcopy(a), 4: t}; rec = True
+    elif kind == 1:
+        d = rng.choice([1, 2, 2, 3]); a = distinct_vec(d); third = d < 3 and rng.random() < 0.5
+        els = [NTn(0), T(1), T(1), T(2)] + ([T(1)] if third else [])
+        rules = [dict(lhs=0, nodes=[0, 0], edges=[(1, [0]), (3, [0, 1]), (2, [1])] + ([(4, [1])] if third else []), ext=[])]
+        t = asym_matrix(rng, W, d) if d >= 2 else [[rng.choice(W)]]
+        weights = {1: a, 2: copy.deepcopy(a), 3: t}
+        if third: weights[4] = copy.deepcopy(a)
+        rec = False
+    elif kind == 2:
+        v = rng.choice([Fraction(1, 4), Fraction(1, 2), Fraction(1)])
+        els = [NTn(0), NTn(0), T(0), T(0), T(0)]
+        rules = [dict(lhs=0, nodes=[], edges=[(1, []), (4, [])], ext=[]),
+                 dict(lhs=1, nodes=[], edges=[(1, []), (1, []), (2, [])], ext=[]),
+                 dict(lhs=1, nodes=[], edges=[(3, [])], ext=[])]
+        weights = {2: v, 3: v, 4: v}; rec = True
+    elif kind == 3:
+        f = distinct_vec(2); g = copy.deepcopy(f) if rng.random() < 0.5 else distinct_vec(2); t = asym_matrix(rng, W)
+        els = [NTn(0), T(1), T(2), T(2), T(1)]
+        rules = [dict(lhs=0, nodes=[0, 0, 0], edges=[(1, [0]), (2, [0, 1]), (3, [1, 2]), (4, [2])], ext=[])]
+        weights = {1: f, 2: t, 3: copy.deepcopy(t), 4: g}; rec = False
+    else:
+        t = asym_matrix(rng, W)
+        els = [NTn(0), NTn(2), T(2), T(2), T(2)]
+        rules = [dict(lhs=0, nodes=[0, 0], edges=[(1, [0, 1]), (4, [0, 1])], ext=[]),
+                 dict(lhs=1, nodes=[0, 0], edges=[(2, [0, 1])], ext=[0, 1]),
+                 dict(lhs=1, nodes=[0, 0], edges=[(3, [1, 0])], ext=[0, 1])]
+        weights = {2: t, 3: copy.deepcopy(t), 4: copy.deepcopy(t)}; rec = False
+    return dict(nlabels=[d], elabels=els, start=0, rules=rules, weights=weights,
+                features=["equal_tables", "forced_equal_tables_kind%d" % kind] + (["size1_domain"] if d == 1 else []), recursive=rec)
+
+def merge_labels(spec, keep, drop):
+    """the grammar in which every edge labelled [drop] is labelled [keep] instead (two factors bound to ONE weight tensor by the
+    caller are one parameter); [drop] stays as a factor that occurs in no rule"""
+    s = dict(spec)
+    s["rules"] = [dict(r, edges=[((keep if el == drop else el), att) for el, att in r["edges"]]) for r in spec["rules"]]
+    return s
+
+def storage_ids(tensors):
+    """small integers naming the physical storage behind each tensor (in the order given); empty tensors get ids of their own"""
+    ids = {}; out = []
+    for k, t in enumerate(tensors):
+        p = t.physical if hasattr(t, "physical") else t
+        key = p.untyped_storage().data_ptr() if p.numel() > 0 else ("empty", k)
+        out.append(ids.setdefault(key, len(ids)))
+    return out
+
+def alias_introduced(pre, post):
+    """pairs of positions that share storage after the path although the caller had given them different storage"""
+    return [(i, j) for i in range(len(post)) for j in range(i + 1, len(post)) if post[i] == post[j] and pre[i] != pre[j]]
+
+def spec_of_fgg(g, spec, names):
+    """read a spec back from an fggs FGG whose terminals are (a subset of) those of [spec] (names: el -> name): for grammars
+    produced by a transformation (conjoin_hrgs).  The weights are those of [spec]; the start symbol is label 0.
+    Returns (spec', {el' of a terminal: el of spec})"""
+    nls = sorted(g.node_labels(), key=lambda l: l.name); nli = {l.name: i for i, l in enumerate(nls)}
+    nts = sorted(g.nonterminals(), key=lambda l: (l != g.start, l.name))
+    byname = {n: el for el, n in names.items()}
+    tms = sorted((l for l in g.terminals() if l.name in byname), key=lambda l: l.name)
+    labels = nts + tms; eli = {l.name: i for i, l in enumerate(labels)}
+    elabels = [dict(term=l.is_terminal, type=[nli[x.name] for x in l.type]) for l in labels]
+    rules = []
+    for r in g.all_rules():
+        nodes = list(r.rhs.nodes()); ni = {n.id: i for i, n in enumerate(nodes)}
+        rules.append(dict(lhs=eli[r.lhs.name], nodes=[nli[n.label.name] for n in nodes],
+                          edges=[(eli[e.label.name], [ni[n.id] for n in e.nodes]) for e in r.rhs.edges()],
+                          ext=[ni[n.id] for n in r.rhs.ext]))
+    back = {eli[l.name]: byname[l.name] for l in tms}
+    weights = {e2: spec["weights"][e1] for e2, e1 in back.items()}
+    sizes = [g.domains[l.name].size() for l in nls]
+    return dict(nlabels=sizes, elabels=elabels, start=0, rules=rules, weights=weights, features=list(spec["features"]),
+                recursive=spec["recursive"]), back
+
+def build_via(spec, sr, path, rng, ids="explicit"):
+    """The FGG of [spec] obtained through [path].  Returns (fgg, {el: FiniteFactor of THAT fgg}, pre, model_spec):
+    pre = storage ids of the weight tensors as the caller supplied them (sorted el order), model_spec = the grammar the
+    gradients are to be judged against (its terminal numbering is the one of the returned factor dict)."""
+    import fggs, torch
+    dtype = sr.torch_dtype()
+    names = {el: gen.el_name(spec, el) for el in spec["weights"]}
+    els = sorted(spec["weights"])
+    old = torch.get_default_dtype(); torch.set_default_dtype(dtype)     # json_to_weights / python lists use the default dtype (as bin/sum_product.py -d)
+    try:
+        if path in ("from_hrg", "lists", "conjoin"):
+            hb = gen.build_hrg(spec, ids=ids, rng=rng)
+            hrg = hb.hrg
+            if path == "conjoin":
+                # conjunction with a grammar of the same skeleton (same node / nonterminal-edge ids, primed nonterminals) that
+                # adds one nullary factor u to every rule; its weight equals a nullary weight of spec if there is one
+                h2 = fggs.HRG(fggs.EdgeLabel(hb.els[spec["start"]].name + "'", hb.els[spec["start"]].type, is_nonterminal=True))
+                prime = {}
+                for i, e in enumerate(spec["elabels"]):
+                    if not e["term"]:
+                        prime[i] = h2.start if i == spec["start"] else fggs.EdgeLabel(hb.els[i].name + "'", hb.els[i].type, is_nonterminal=True)
+                extra = fggs.EdgeLabel("u", [], is_terminal=True)
+                for (rule, nodes, edges), r in zip(hb.rules, spec["rules"]):
+                    gr = fggs.Graph()
+                    for n in nodes: gr.add_node(n)
+                    for e, (el, att) in zip(edges, r["edges"]):
+                        if not spec["elabels"][el]["term"]: gr.add_edge(fggs.Edge(prime[el], e.nodes, id=e.id))
+                    gr.add_edge(fggs.Edge(extra, [], id="u"))
+                    gr.ext = rule.rhs.ext
+                    h2.add_rule(fggs.HRGRule(prime[r["lhs"]], gr))
+                hrg = fggs.conjoin_hrgs(hrg, h2)
+            g = fggs.FGG.from_hrg(hrg)
+            for i, size in enumerate(spec["nlabels"]):
+                g.add_domain(hb.nls[i], fggs.FiniteDomain(["v%d_%d" % (i, k) for k in range(size)]))
+            supplied = []
+            for el in els:
+                if path == "lists":     # nested python lists of floats (FiniteFactor converts them itself)
+                    g.new_finite_factor(names[el], gen.nested_map(spec["weights"][el], sr.wconv))
+                    supplied.append(g.factors[names[el]].weights)
+                else:
+                    t = gen.weight_tensor(spec, el, sr.wconv, dtype)
+                    g.new_finite_factor(names[el], t); supplied.append(t)
+            if path != "conjoin":
+                return g, {el: g.factors[names[el]] for el in els}, storage_ids(supplied), spec
+            scal = [el for el in els if table_shape(spec, el) == ()]
+            uval = spec["weights"][scal[0]] if scal else Fraction(1, 2)
+            g.new_finite_factor("u", torch.tensor(sr.wconv(uval), dtype=dtype))
+            s2 = dict(spec, elabels=list(spec["elabels"]) + [dict(term=True, type=[])], weights=dict(spec["weights"]))
+            u = len(s2["elabels"]) - 1; s2["weights"][u] = uval
+            names2 = dict(names); names2[u] = "u"
+            model_spec, back = spec_of_fgg(g, s2, names2)
+            facs = {e2: g.factors[names2[e1]] for e2, e1 in back.items()}
+            return g, facs, list(range(len(facs))), model_spec
+        b = gen.build_fgg(spec, sr.wconv, ids=ids, rng=rng, dtype=dtype)
+        g = b.fgg
+        if path == "shared_by_caller":
+            # the caller binds two factors with equal tables to ONE tensor: they are one parameter, whose gradient is the
+            # derivative of the grammar in which both edge labels are the same label
+            grp = equal_groups(spec)
+            keep, drop = grp[0][0], grp[0][1]
+            b.factors[drop].weights = b.factors[keep].weights
+            if rng.random() < 0.5: g = fggs.factorize_fgg(g)
+            obs = [el for el in els if el != drop]
+            return g, {el: g.factors[names[el]] for el in obs}, storage_ids([b.factors[el].weights for el in obs]), merge_labels(spec, keep, drop)
+        pre = storage_ids([b.factors[el].weights for el in els])
+        for step in PATH_STEPS[path]:
+            if step == "json": g = fggs.json_to_fgg(json.loads(json.dumps(fggs.fgg_to_json(g))))
+            elif step == "copy": g = g.copy()
+            else: g = fggs.factorize_fgg(g)
+        return g, {el: g.factors[names[el]] for el in els}, pre, spec
+    finally:
+        torch.set_default_dtype(old)
+
+def run_path_case(spec, sr, method, cot, plain, path, ids, seed, inplace):
+    """One history on ONE grammar object obtained through [path]: requires_grad_ on the factors of that object, sum_product,
+    backward, read every factor's gradient; then (inplace) one factor's weights are halved IN PLACE under no_grad, the
+    gradients are cleared and the same object is evaluated again.  Returns (rounds, pre, post): rounds = list of
+    (model spec of that round, status, warned, {el of model spec: grads}, z); pre / post = storage ids before / after the path."""
+    import fggs, torch
+    rng = random.Random(seed)
+    g, facs, pre, cur = build_via(spec, sr, path, rng, ids)
+    post = storage_ids([facs[el].weights for el in sorted(facs)])
+    rounds = []
+    for rnd in range(2 if inplace else 1):
+        for fac in facs.values():
+            fac.weights.requires_grad_(); fac.weights.physical.grad = None
+        with warnings.catch_warnings(record=True) as wl:
+            warnings.simplefilter("always")
+            try:
+                z = fggs.sum_product(g, method=method, semiring=sr.semiring(), tol=1e-10, kmax=400).to_dense()
+            except ValueError as e:
+                if "not linearly recursive" in str(e): rounds.append((cur, "valueerror", False, {}, None)); break
+                raise
+            loss = z.sum() if plain else (z * torch.tensor([float(x) for x in cot], dtype=sr.torch_dtype()).reshape(z.shape)).sum()
+            status = "ok"
+            try: loss.backward()
+            except RuntimeError as e:
+                if "does not require grad" in str(e): status = "nograd"
+                else: raise
+        warned = any("maximum iteration exceeded" in str(w.message) for w in wl)
+        grads = {}
+        for el, fac in facs.items():
+            gr = fac.weights.grad
+            n = numel(table_shape(cur, el))
+            grads[el] = [0.0] * n if gr is None else dense_list(gr)
+            if len(grads[el]) != n: raise AssertionError("gradient of factor %d has %d entries, weights have %d" % (el, len(grads[el]), n))
+        rounds.append((cur, status, warned, grads, dense_list(z)))
+        if rnd == 0 and inplace:
+            el = sorted(facs)[rng.randrange(len(facs))]
+            with torch.no_grad():
+                ph = facs[el].weights.physical
+                if sr.name == "log": ph.add_(math.log(0.5))
+                else: ph.mul_(0.5)
+            cur = dict(cur, weights=dict(cur["weights"]))
+            cur["weights"][el] = gen.nested_map(cur["weights"][el], lambda v: v / 2)
+    return rounds, pre, post
+
 NT0 = dict(term=False, type=[])
 def forced_finding_specs():
     """minimal inputs of the defect classes found by this check and since repaired in /repo (b84d904, 839ae95, e1d8ad4, fc474fc, 124928a); kept in every run as regression cases"""
@@ -638,6 +884,68 @@ def run(tier, seed):
             vals.append(v); meta.append((dict(m["case"], via="api-jpre"), m["call"], m["grads"], None))
             if any(x != 0 for g in m["grads"].values() for x in g): distinct.add(json.dumps(m["case"], sort_keys=True))
         n_j += 1
+    # stream "paths": distinct factors with EQUAL tables through every constructor / loader / copy path, per-factor gradients
+    # read from the objects that path returned, a second evaluation of the same object after an in-place update
+    prng = random.Random(seed * 13 + 5); n_path = 27 if tier == "quick" else 360; k = 0; tries = 0
+    if os.environ.get("VERIF_N"): n_path = int(os.environ["VERIF_N"])
+    path_hist = {}; kinds["path_alias_checked"] = 0; kinds["path_equal_pairs_with_different_gradients"] = 0
+    while k < n_path and tries < 60 * n_path:
+        tries += 1
+        path = PATHS[k % len(PATHS)]
+        if (k + k // len(PATHS)) % 3 == 0:
+            spec = equal_tables_spec(prng, (k // 3) % 5)
+            scale = Fraction(1, 4) if spec["recursive"] else Fraction(1)
+        else:
+            spec, scale, keep_zero = gen_spec(prng, 2 * tries, (k // 2) % 2 == 1)      # even index: no unused factor (F20: lost by the JSON round trip)
+            used = {el for r in spec["rules"] for el, _ in r["edges"]}
+            if keep_zero or len(spec["weights"]) < 2 or not all(el in used for el in spec["weights"]): continue
+            if sum(numel(table_shape(spec, el)) for el in spec["weights"]) > (10 if spec["recursive"] else 16): continue
+            spec, n_eq = equalize_tables(spec, prng)
+            if n_eq == 0: continue
+        if path == "shared_by_caller" and not equal_groups(spec): continue
+        if path == "conjoin" and sum(1 for e in spec["elabels"] if not e["term"]) > 2: continue
+        sr = SR(["real", "log"][k % 2], "float64", scale)
+        nonlin = any(f in spec["features"] for f in ("forced_mutual_recursion", "forced_nonlinear_matrix_recursion", "forced_dead_rule_first",
+                                                     "forced_diagonal_recursion", "forced_nonlinear_hi_arity", "forced_equal_tables_kind2"))
+        method = METHODS[(k + k // len(PATHS)) % (2 if nonlin else 3)]
+        n_c = numel(start_shape(spec)); plain = k % 4 == 3
+        cot = [Fraction(1)] * n_c if plain else [prng.choice([c for c in COT_GRID if c != 0 or n_c > 1]) for _ in range(n_c)]
+        ids = "explicit" if path == "conjoin" else ["explicit", "implicit"][(k // 2) % 2]
+        inplace = (k // 3) % 2 == 0
+        cseed = prng.randrange(10**6)
+        case0 = dict(spec=gen.spec_jsonable(spec), semiring=sr.name, scale=str(sr.scale), method=method, cotangent=[str(c) for c in cot], plain=plain,
+                     via="path-" + path, path=path, ids=ids, case_seed=cseed, inplace=inplace)
+        call = "g = <FGG with equal weight tables via %s>; [f.weights.requires_grad_() for f in g.factors.values()]; sum_product(g, method=%r, semiring=%s).to_dense()%s.backward(); g.factors[..].weights.grad" % (
+            path, method, sr.name, ".sum()" if plain else " * c).sum(")
+        k += 1
+        try:
+            rounds, pre, post = run_path_case(spec, sr, method, cot, plain, path, ids, cseed, inplace)
+        except Exception as e:
+            violations.append(Violation("gradient computation on a grammar obtained via %s raised %r" % (path, e), case=case0, call=call, corr="corr:backward(paths)",
+                                        oracle="no exception expected"))
+            continue
+        path_hist[path] = path_hist.get(path, 0) + 1
+        for f in spec["features"]: feats[f] = feats.get(f, 0) + 1
+        kinds["path_alias_checked"] += 1
+        bad = alias_introduced(pre, post)
+        if bad:
+            violations.append(Violation("distinct factors share ONE weight storage after %s although the caller supplied separate tensors (their .grad accumulates the sum of both derivatives; an in-place update of one changes the other)" % path,
+                                        case=dict(case0, storage_before=pre, storage_after=post, aliased_positions=bad), observed=post, expected=pre, call=call,
+                                        corr="C03 / corr:weight storage partition", failing_input_found=False))
+        for rnd, (cur, status, warned, grads, z) in enumerate(rounds):
+            if status == "valueerror": kinds["valueerror"] += 1; continue
+            if status == "nograd": kinds["nograd"] += 1
+            if warned: kinds["warned"] += 1; continue
+            case = dict(case0, round=rnd, model_spec=gen.spec_jsonable(cur), status=status)
+            kinds["path"] = kinds.get("path", 0) + 1
+            hist["semiring"][sr.name] = hist["semiring"].get(sr.name, 0) + 1
+            hist["method"][method] = hist["method"].get(method, 0) + 1
+            vals.append(wire_case(cur, sr, cot, grads)); meta.append((case, call + (" [second evaluation of the same object after halving one factor in place]" if rnd else ""), grads, None))
+            if any(x != 0 for g_ in grads.values() for x in g_): distinct.add(json.dumps(case, sort_keys=True))
+            if rnd == 0 and path != "conjoin":
+                kinds["path_equal_pairs_with_different_gradients"] += sum(1 for grp in equal_groups(cur) for a in grp for b_ in grp
+                                                                          if a < b_ and a in grads and b_ in grads and grads[a] != grads[b_])
+    hist["path"] = path_hist
     t_impl = time.time()
     codes, nk = run_model_parallel(vals, seed, coq_sample=3 if tier == "quick" else 12)
     # the command-line runs were working in the background all along; judge their outputs now
@@ -694,6 +1002,18 @@ def replay(path):
     spec = gen.spec_from_json(c["spec"])
     sr = SR(c["semiring"], "float64", Fraction(c["scale"]))
     cot = [Fraction(x) for x in c["cotangent"]]
+    if c.get("via", "api").startswith("path-"):
+        rounds, pre, post = run_path_case(spec, sr, c["method"], cot, c["plain"], c["path"], c["ids"], c["case_seed"], c["inplace"])
+        bad = alias_introduced(pre, post)
+        print("storage ids before", pre, "after", post, "aliasing introduced at positions", bad)
+        rc = 1 if bad else 0
+        for rnd, (cur, status, warned, grads, z) in enumerate(rounds):
+            print("round", rnd, "status", status, "warned", warned, "z", z)
+            if status == "valueerror" or warned: continue
+            code = run_ocaml(CF, [wire_case(cur, sr, cot, grads)])[0]
+            print("gradients", grads, "verdict code", code)
+            if code not in (0, 30, 31): rc = 1
+        return rc
     if c.get("via", "api").startswith("bin"):
         status, grads, gexp, err = run_bin(spec, c["method"], None if c["plain"] else cot, "ge" if c["via"] in ("bin-ge", "bin-e") else "G", scale=sr.scale, factor=c.get("factor"))
         print("status", status, err[-300:])
